@@ -141,12 +141,18 @@ func cmdCheck(prop, tier string) int {
 	// lemmas
 	lemmaObls := x.lemmaObligations(prop)
 	all := append(append([]*Obligation(nil), x.obls...), lemmaObls...)
+	known := loadKnown()
+	cfg.short = map[string]bool{}
+	for _, k := range known.Findings {
+		if k.Kind == "finding" && k.Property == prop {
+			cfg.short[k.Obligation] = true
+		}
+	}
 	t0 := time.Now()
 	discharge(all, cfg)
 	solveWall := time.Since(t0).Seconds()
 	sums := summarize(all)
 
-	known := loadKnown()
 	outDir := filepath.Join(verifDir, "out", prop)
 	os.MkdirAll(outDir, 0o755)
 
@@ -320,9 +326,13 @@ func cmdCheck(prop, tier string) int {
 		"violations":  violations,
 	}
 	if len(machinery) == 0 || violations > 0 {
-		os.MkdirAll(filepath.Join(verifDir, "evidence"), 0o755)
+		evDir := filepath.Join(verifDir, "evidence")
+		if d := os.Getenv("GOWP_EVIDENCE"); d != "" {
+			evDir = d // seeded-change runs keep their evidence away from the committed files
+		}
+		os.MkdirAll(evDir, 0o755)
 		data, _ := json.MarshalIndent(ev, "", " ")
-		os.WriteFile(filepath.Join(verifDir, "evidence", prop+".json"), data, 0o644)
+		os.WriteFile(filepath.Join(evDir, prop+".json"), data, 0o644)
 	}
 	for _, l := range knownLines {
 		fmt.Println(l)
